@@ -58,6 +58,27 @@ Theorem qos_recipient_is_written : ∀ bad n r q s m,
 Proof. exact qos_recipient_written. Qed.
 Print Assumptions qos_recipient_is_written.
 
+From Wasp Require Import Proofs.Qos2Facts Proofs.StepFacts.
+(** The chain composed over one step of the cluster (Proofs/StepFacts.v): in the very step in
+    which the broker acknowledges a QoS 0/1 publish — from any state in which the consumers have
+    caught up and nothing is failing — every registered session with a matching added subscription
+    on a destination node, whose connection accepts writes, is sent the message: topic as
+    published (mount point trimmed), payload intact. *)
+Theorem acknowledged_publish_reaches_subscribers : ∀ seen cl c k s p dup mid clk j u s',
+  find_conn cl c = Some k → c_closed k = false → c_sid k = Some (ss_id s) →
+  alookup (ss_id s) (n_reg (getn cl (c_node k))) = Some s →
+  quiescent cl → healthy cl → p_retain p = false → (p_qos p = 0 ∨ p_qos p = 1) →
+  let i := c_node k in
+  let m := LMsg (prefix_mp (ss_mp s) (p_topic p)) (p_payload p) (p_qos p) false dup in
+  Forall (λ d, 1 ≤ d) (dests_of cl i m) →
+  (∀ j u, (j < nlen cl)%nat → u ∈ sub_by_pattern (n_d (getn cl j)) (l_topic m) → s_qos u = 0) →
+  (j < nlen cl)%nat → dest_here cl i m j = true →
+  u ∈ sub_by_pattern (n_d (getn cl j)) (l_topic m) → s_peer u = n_id (getn cl j) →
+  alookup (s_sid u) (n_reg (getn cl j)) = Some s' → existsb (String.eqb (ss_conn s')) (cl_bad cl) = false →
+  Out (ss_conn s') (OPublish (trim_mp (ss_mp s') (l_topic m)) (p_payload p) 0 false dup 0) ∈ (step seen cl (EPublish c p dup mid clk)).2.
+Proof. exact publish_step_reaches. Qed.
+Print Assumptions acknowledged_publish_reaches_subscribers.
+
 (** the very first message a node ever stores is delivered *)
 Example first_message_delivered :
   let run := fold_left (λ st o, let r := step [] st.1 o in (r.1, (st.2 ++ [r.2])%list)) in
